@@ -764,7 +764,7 @@ def rule_no_carried_static_state(prog, fixture=False):
     for gid, gl in prog.globals.items():
         q = notpl(gl.get("q") or "")
         owner = q.rsplit("::", 1)[0] if "::" in q else ""
-        if owner not in recs or gl.get("const") or gl.get("constexpr"):
+        if not owner or owner not in recs or gl.get("const") or gl.get("constexpr"):
             continue
         loc = gid.split("|")[1] if "|" in gid else "?"
         if "/tests/" in loc:
